@@ -1,5 +1,147 @@
-(* C15 — property theorems (placeholder until the model is built). *)
-From WI Require Import Lib.Base Lib.Info Model.Dn Proofs.Dn.
-Theorem C15_placeholder : True.
-Proof. exact I. Qed.
-Print Assumptions C15_placeholder.
+(* C15 — distinguished names are rendered unambiguously (RFC 4514).
+   Only statements; proofs are in Proofs/Dn.v.
+
+   Model/Dn.v  : render_dn (names.FromRDNSequence), from_raw_dn (names.FromRawDN), escape_gen
+                 (escapeRDNAttrValue), attr_name (x500AttrTypeFromOID over the regenerated table).
+   Lib/Rfc4514 : parse_dn / parse_rdns / parse_value — the RFC 4514 reader (the specification).
+
+   A name is a list of RDNs in certificate order, each a list of (OID, value); a value is a
+   Go string or a non-string Go value known by its DER encoding.
+     name_ok  : every OID has at least two arcs (every DER-decoded OID has); every string value is
+                valid UTF-8 (valid_utf8 = Go's utf8.ValidString: PrintableString, IA5String and
+                UTF8String contents are); every non-string value has a DER encoding
+                (marshal v <> []: excludes only a Go nil, which FromRawDN no longer produces
+                since repair F31e; see C15_nil_value_unreadable).
+     patv_of  : what the reader must return for one attribute: (displayed type, PStr s | PHex der).
+     akey     : the attribute itself: (OID, PStr s | PHex der). *)
+From WI Require Import Lib.Base Lib.Info Lib.Utf8 Lib.Rfc4514 Model.Dn Proofs.Dn.
+Open Scope N_scope.
+
+(* T1: the regenerated name table is usable by an RFC 4514 reader: every display name is a
+   descr (ALPHA followed by ALPHA / DIGIT / HYPHEN) and no two entries share a name *)
+Theorem C15_name_table_ok : name_table_ok x500_names = true.
+Proof. exact x500_names_ok. Qed.
+Print Assumptions C15_name_table_ok.
+
+(* the displayed attribute type determines the OID, for ALL OIDs (in the table or dotted) *)
+Theorem C15_names_injective : forall o1 o2 : oid, attr_name o1 = attr_name o2 -> o1 = o2.
+Proof. exact attr_name_inj. Qed.
+Print Assumptions C15_names_injective.
+
+(* before repair F31 the table had two rows named ldapUrl *)
+Theorem C15_names_injective_refuted :
+  exists o1 o2 : oid, o1 <> o2 /\ attr_name_in ldap_rows_before o1 = attr_name_in ldap_rows_before o2.
+Proof. exact names_injective_refuted_before. Qed.
+Print Assumptions C15_names_injective_refuted.
+
+(* escapeRDNAttrValue on a valid string is the per-code-point escaping [esc_cps]:
+   `\00` for NUL, `\c` for comma, plus, double quote, backslash, angle brackets and semicolon always, for a space that is first or last, for a
+   '#' that is first; everything else unchanged (k == len(s)-1 is a byte-index test, but the
+   only rune it is applied to has width 1) *)
+Theorem C15_escape_by_code_point : forall nul cps, Forall scalar cps ->
+  escape_gen nul (utf8 cps) = esc_cps nul true cps.
+Proof. exact escape_utf8. Qed.
+Print Assumptions C15_escape_by_code_point.
+
+(* the reader's state after the escaped text of any sequence of code points, in first or
+   non-first position, followed by the end of the text or a separator: one token per code
+   point ([toks]: a pair for every escaped one — leading space, leading '#', trailing space
+   included — the character itself otherwise) and nothing of the remainder consumed *)
+Theorem C15_reader_after_escape : forall cps, Forall scalar cps -> forall first rest,
+  sep_or_end rest = true ->
+  lex_value (esc_cps true first cps ++ rest) = Some (toks first cps, rest).
+Proof. exact lex_esc. Qed.
+Print Assumptions C15_reader_after_escape.
+
+(* one value: whatever follows (end, ',' or '+'), the reader gets the string back and stops
+   exactly at the separator: a value cannot forge, merge or hide components *)
+Theorem C15_value_roundtrip : forall s rest, valid_utf8 s = true -> sep_or_end rest = true ->
+  parse_value (escape_gen true s ++ rest) = Some (PStr s, rest).
+Proof. exact value_roundtrip. Qed.
+Print Assumptions C15_value_roundtrip.
+
+(* valid_utf8 is exactly "the UTF-8 encoding of a sequence of Unicode scalar values" *)
+Theorem C15_valid_utf8_iff : forall s,
+  valid_utf8 s = true <-> exists cps, Forall scalar cps /\ s = utf8 cps.
+Proof.
+  intro s. split; [apply valid_utf8_scalars|]. intros (cps & H & ->). now apply scalars_valid_utf8.
+Qed.
+Print Assumptions C15_valid_utf8_iff.
+
+(* THE PROPERTY: the text of a name parses back into exactly the sequence of its attribute
+   types and values, most specific (last RDN) first *)
+Theorem C15_roundtrip : forall rdns, name_ok rdns ->
+  parse_dn (render_dn rdns) = Some (map patv_of (concat (rev rdns))).
+Proof. exact roundtrip. Qed.
+Print Assumptions C15_roundtrip.
+
+(* ... and with the RDN boundaries: the attributes of a multi-valued RDN stay together
+   (after repair F31d; empty RDNs print nothing) *)
+Theorem C15_roundtrip_rdns : forall rdns, name_ok rdns ->
+  parse_rdns (render_dn rdns) = Some (map (map patv_of) (filter nonempty (rev rdns))).
+Proof. exact roundtrip_rdns. Qed.
+Print Assumptions C15_roundtrip_rdns.
+
+(* the same for what file.Inspect prints as Subject / Issuer: FromRawDN on a name the library
+   decoded as [rdns] *)
+Theorem C15_certificate_names : forall dn rdns, name_ok rdns ->
+  parse_dn (from_raw_dn dn (Some rdns)) = Some (map patv_of (concat (rev rdns))).
+Proof. exact from_raw_dn_roundtrip. Qed.
+Print Assumptions C15_certificate_names.
+
+(* no forgery, merging or hiding: as many components are read as the name has attributes *)
+Theorem C15_no_forgery : forall rdns, name_ok rdns ->
+  exists l, parse_dn (render_dn rdns) = Some l /\ length l = length (concat rdns).
+Proof. exact no_forgery. Qed.
+Print Assumptions C15_no_forgery.
+
+(* unambiguous: two names with the same text have the same RDNs, the same OIDs and the same
+   values (uses C15_names_injective) *)
+Theorem C15_unambiguous : forall r1 r2, name_ok r1 -> name_ok r2 -> render_dn r1 = render_dn r2 ->
+  map (map akey) (filter nonempty (rev r1)) = map (map akey) (filter nonempty (rev r2)).
+Proof. exact unambiguous. Qed.
+Print Assumptions C15_unambiguous.
+
+(* INTEGER values always satisfy the hypothesis on values *)
+Theorem C15_integer_values_ok : forall z, value_ok (GInt z).
+Proof. exact int_value_ok. Qed.
+Print Assumptions C15_integer_values_ok.
+
+(* the hypotheses are met by a name with every special character, a leading space followed by #, a
+   trailing space, NUL, LF, multi-byte characters, an empty value, a lone '#', a lone space,
+   an empty RDN, multi-valued RDNs, an INTEGER and an OCTET STRING; its text is as expected *)
+Example C15_tricky_name_ok : name_ok tricky_name.
+Proof. exact tricky_name_ok. Qed.
+Example C15_tricky_name_text :
+  render_dn tricky_name =
+    bs "0.9.2342.19200300.100.1.25=\#+O=\ +2.999.3=#0401ff,CN=\ #\,\+\""\\\<\>\;=\00" ++ [10; 195; 169; 240; 159; 152; 128]
+    ++ bs "\ +tagLocation=#0202ff7f+1.2.840.113549.1.9.1=,C=ZZ".
+Proof. exact tricky_name_text. Qed.
+
+(* ---- the code before the repairs refutes the property (witnesses kept in the corpus) ---- *)
+(* F31c: NUL written raw: the text is not an RFC 4514 string *)
+Theorem C15_nul_refuted :
+  exists rdns, name_ok rdns /\ parse_dn (render_dn_gen original x500_names rdns) = None.
+Proof. exact nul_refuted_before. Qed.
+Print Assumptions C15_nul_refuted.
+
+(* F31d: multi-valued RDN joined by ',': two different names, one text *)
+Theorem C15_multivalued_refuted :
+  exists r1 r2, name_ok r1 /\ name_ok r2 /\
+    render_dn_gen (mkvariant true false true) x500_names r1 = render_dn_gen (mkvariant true false true) x500_names r2 /\
+    map (map akey) (filter nonempty (rev r1)) <> map (map akey) (filter nonempty (rev r2)).
+Proof. exact multivalued_refuted_before. Qed.
+Print Assumptions C15_multivalued_refuted.
+
+(* F31b: INTEGER 5 printed like the string %!s(int64=5) *)
+Theorem C15_nonstring_refuted :
+  exists a b, akey a <> akey b /\
+    render_dn_gen (mkvariant true true false) x500_names [[a]] = render_dn_gen (mkvariant true true false) x500_names [[b]].
+Proof. exact nonstring_refuted_before. Qed.
+Print Assumptions C15_nonstring_refuted.
+
+(* the case name_ok excludes: FromRDNSequence called directly with a nil value (before repair
+   F31e FromRawDN produced it for types encoding/asn1 does not decode) prints a bare '#' *)
+Theorem C15_nil_value_unreadable : parse_dn (render_dn [[(cn, GNil)]]) = None.
+Proof. exact nil_value_unreadable. Qed.
+Print Assumptions C15_nil_value_unreadable.
